@@ -551,7 +551,10 @@ int main(int argc, char** argv) {
                 for (size_t k = 0; k < cx.vars.size(); ++k)
                     vars[cx.vars[k].id()] = (5 + k < t.size()) ? of_hex32(t[5 + k]) : 0.0f;
                 Eigen::Vector3f p(of_hex32(t[2]), of_hex32(t[3]), of_hex32(t[4]));
-                ArrayEvaluator e(H(t[1]), vars);
+                // one deck for every evaluator of this command: each Deck optimises the tree again, and the
+                // optimiser's operand order follows heap addresses, so two decks may differ by an ulp
+                auto shared_deck = std::make_shared<Deck>(H(t[1]));
+                ArrayEvaluator e(shared_deck, vars);
                 float v = e.value(p);
                 // the same point in every slot position of a few batch sizes
                 static const int sizes[] = {1, 2, 3, 15, 16, 17, 31, 33, 255, 256};
@@ -565,6 +568,34 @@ int main(int argc, char** argv) {
                         if (memcmp(&w, &v, 4) != 0 && !(std::isnan(w) && std::isnan(v))) {
                             if (!bad) badinfo = " n=" + std::to_string(n) + " slot=" + std::to_string(slot) + " got=" + hex32(w);
                             ++bad;
+                        }
+                    }
+                }
+                // variable assignments reach every slot: an evaluator that was built with OTHER values, evaluated a
+                // small batch, and was then given the assignment through setVar must answer like the fresh one in
+                // every slot of a LARGER batch (the rows of free variables are per-slot state)
+                if (!cx.vars.empty()) {
+                    std::map<Tree::Id, float> other;
+                    int kk = 0;
+                    for (auto& kv : vars) other[kv.first] = kv.second + 3.25f + 0.5f * (kk++);
+                    static const int firsts[] = {1, 3, 16, 17, 40};
+                    static const int seconds[] = {2, 18, 33, 64, 256};
+                    for (int n1 : firsts) for (int n2 : seconds) {
+                        if (n2 <= n1) continue;
+                        ArrayEvaluator e2(shared_deck, other);
+                        for (int k = 0; k < n1; ++k) e2.set(Eigen::Vector3f(0.5f * k - 1, 0.75f * k, -0.25f * k), k);
+                        (void)e2.values(n1);
+                        for (auto& kv : vars) e2.setVar(kv.first, kv.second);
+                        for (int slot : {0, n1, n2 / 2, n2 - 1}) {
+                            if (slot >= n2) continue;
+                            for (int k = 0; k < n2; ++k)
+                                e2.set(Eigen::Vector3f(1.5f * k - 3, 0.25f * k, -0.5f * k + 1), k);
+                            e2.set(p, slot);
+                            float w = e2.values(n2)(slot);
+                            if (memcmp(&w, &v, 4) != 0 && !(std::isnan(w) && std::isnan(v))) {
+                                if (!bad) badinfo = " setvar-after-n1=" + std::to_string(n1) + " n=" + std::to_string(n2) + " slot=" + std::to_string(slot) + " got=" + hex32(w);
+                                ++bad;
+                            }
                         }
                     }
                 }
